@@ -43,14 +43,16 @@ def run(ctx):
             found = True
     # packages of functions that call each other, printed in shuffled source order: the order of the
     # emitted file is the order the model of Decls computes, and that list is the model's translation
-    cmdc, csc, stc = semlib.run_semdrv(ctx, "minigoc", ctx.seed * 1000 + 77, 12 if quick else 300)
-    evals += stc["cases"]
-    calls += stc["calls"]
-    ctx.cov["packages_whose_emitted_order_equals_the_decls_model"] = stc["cases"]
-    for c in [c for c in csc if c["mismatches"]][:2]:
-        vlib.violation(ctx, "generated-calls-" + c["pkg"], dict(semlib.replay_of(cmdc, c), kind="a package of functions that call each other: the emitted order is not the order the model of Decls computes, "
-                                                                                               "or the emitted list is not the model's translation, or a call disagrees with Go"), True)
-        found = True
+    ctx.cov["packages_whose_emitted_order_equals_the_decls_model"] = 0
+    for k, prof in enumerate(("minigoc", "minigos")):
+        cmdc, csc, stc = semlib.run_semdrv(ctx, prof, ctx.seed * 1000 + 77 + k, 10 if quick else 300)
+        evals += stc["cases"]
+        calls += stc["calls"]
+        ctx.cov["packages_whose_emitted_order_equals_the_decls_model"] += stc["cases"]
+        for c in [c for c in csc if c["mismatches"]][:2]:
+            vlib.violation(ctx, "generated-calls-" + c["pkg"], dict(semlib.replay_of(cmdc, c), kind="a package of functions that call each other: the emitted order is not the order the model of Decls computes, "
+                                                                                                   "or the emitted list is not the model's translation, or a call disagrees with Go"), True)
+            found = True
     ctx.cov.update({
         "evaluations": evals, "distinct_nontrivial": evals,
         "rule": "a case is one generated package (constants with initialisers mentioning constants, 1-2 structs, 6 functions and methods calling earlier ones, "
